@@ -90,7 +90,8 @@ class Manu(CLICmd):
         run_params = config["vms_params"]
 
         # prepare a setup step or a chain of such
-        setup_chain = run_params.objects("setup")
+        # NOTE: not objects() since it drops repeated steps like setup=run,boot,run
+        setup_chain = run_params.get("setup", "").split()
         retcode = 0
         for i, setup_step in enumerate(setup_chain):
             run_params["count"] = i
